@@ -382,6 +382,29 @@ func registerSync(ex *Exec) {
 			return nil, true
 		}
 	}
+	// sync.Once: the function runs on the first Do of the object (a second goroutine calling Do while the first is
+	// still inside does not wait - adequate for the single-goroutine uses in the interpreted standard library)
+	I["(*sync.Once).Do"] = func(ex *Exec, st *State, args []Value, call ssa.CallInstruction) (Value, bool) {
+		fr := st.frame()
+		if fr.MemoIdx < len(fr.Memo) {
+			fr.MemoIdx++
+			return nil, true
+		}
+		key := lockKey(args[0].(Ptr))
+		if st.Once[key] {
+			return nil, true
+		}
+		if st.Once == nil {
+			st.Once = map[string]bool{}
+		}
+		st.Once[key] = true
+		cl, ok := args[1].(Closure)
+		if !ok || cl.Fn == nil {
+			ex.goPanic(st, "sync.Once.Do of nil function")
+			return nil, false
+		}
+		return ex.helperCall(st, cl.Fn, nil, cl.Env)
+	}
 	I["(*sync.Mutex).Lock"] = lock("Lock")
 	I["(*sync.Mutex).Unlock"] = unlock("Unlock")
 	I["(*sync.RWMutex).Lock"] = func(ex *Exec, st *State, args []Value, call ssa.CallInstruction) (Value, bool) {
